@@ -57,7 +57,12 @@ Streams ==
 
 Digests == {[n |-> n, id |-> i] : n \in {0, 1, 2, 2000}, i \in Ids}
 \* framing: raw blocks with the given threshold, or the real encoder's own policy ("like", 16384)
+\* ... or every block compressed with blocks LONGER than the real encoder ever writes ("zstd": a foreign
+\* encoder of the same layout may put up to 65 535 bytes in a block)
 Framings == {[mode |-> "raw", T |-> t] : t \in {100, 16384, 65535}} \cup {[mode |-> "like", T |-> 16384]}
+            \cup {[mode |-> "zstd", T |-> t] : t \in {16385, 40000}}
+\* forced compression may expand incompressible content slightly
+ZstdSlack(raw, T) == raw \div 128 + 80 * RawBlocks(raw, T)
 
 Shapes ==
   {[t |-> "Bad"]}
@@ -79,13 +84,14 @@ Layout(sh) ==
          [raw |-> raw, oplens |-> [i \in 1..Len(sh.ops) |-> OpLen(sh.ops[i])],
           blocks |-> RawBlocks(raw, sh.framing.T),
           total |-> IF sh.framing.mode = "raw" THEN 4 + RawStreamLen(raw, sh.framing.T) ELSE -1,
-          bound |-> 4 + RawStreamLen(raw, sh.framing.T)]
+          bound |-> 4 + RawStreamLen(raw, sh.framing.T) + (IF sh.framing.mode = "zstd" THEN ZstdSlack(raw, sh.framing.T) ELSE 0)]
     [] sh.t = "SynAck" ->
          LET raw == RawLen(sh.ops) IN
          [raw |-> raw, oplens |-> [i \in 1..Len(sh.ops) |-> OpLen(sh.ops[i])], digest |-> DigestLen(sh.digest),
           blocks |-> RawBlocks(raw, sh.framing.T),
           total |-> IF sh.framing.mode = "raw" THEN 4 + DigestLen(sh.digest) + RawStreamLen(raw, sh.framing.T) ELSE -1,
-          bound |-> 4 + DigestLen(sh.digest) + RawStreamLen(raw, sh.framing.T)]
+          bound |-> 4 + DigestLen(sh.digest) + RawStreamLen(raw, sh.framing.T)
+                    + (IF sh.framing.mode = "zstd" THEN ZstdSlack(raw, sh.framing.T) ELSE 0)]
 
 Init == shape \in Shapes /\ done = FALSE /\ layout = [total |-> 0]
 Compute == ~done /\ done' = TRUE /\ layout' = Layout(shape) /\ UNCHANGED shape
